@@ -204,7 +204,11 @@ def r3_siblings(cx):
         if len(a) != 1 or len(bb) != 1:
             raise AnchorLost("sibling pair %s: ByteRegion %d / ByteSlice %d" % (m, len(a), len(bb)))
         sa, sb = _callee_seq(F, a[0]), _callee_seq(F, bb[0])
-        cx.ob("R3", "R3/%s" % m, sa == sb, a[0], "ByteRegion::%s and ByteSlice::%s resolve to the same callee sequence: %s vs %s" % (m, m, sa, sb))
+        # delegation: the region view turns itself into the slice view (`self.as_slice()`) and then does what the
+        # slice view does, or calls the slice view's method of the same name -- the two agree by construction
+        deleg = [x for x in sa if x != "Self::as_slice"]
+        delegates = "Self::as_slice" in sa and (deleg == sb or deleg == ["Self::" + m])
+        cx.ob("R3", "R3/%s" % m, sa == sb or delegates, a[0], "ByteRegion::%s and ByteSlice::%s resolve to the same callee sequence: %s vs %s" % (m, m, sa, sb))
 
 
 def r4_stream_read(cx):
